@@ -96,6 +96,22 @@ def run(ctx: Ctx):
                                   key=f"{name}:{why.split(' ')[0]}:{'fwd' if out > cur else 'back' if out < cur else 'eq'}")
     if py_obs is not None:
         oracle("python", hs, py_obs)
+        # the clock the runtime keeps and the estimate it holds move together: the prediction steps in the lineage of the
+        # held estimate sum to (held time - start time)
+        from fractions import Fraction as _F
+        for h, obs in zip(hs, py_obs):
+            st = float.fromhex(h["start"])
+            for ti, o in enumerate(obs):
+                if not o or o.get("held") is None or o.get("held_t") is None:
+                    continue
+                dts = [v for k, v in rt.expand(o["held"]) if k == 0]
+                total = sum((_F(d) for d in dts), _F(0))
+                ht = float.fromhex(o["held_t"])
+                if abs(_F(st) + total - _F(ht)) > _F(1, 10**8) * (1 + len(dts)):
+                    ctx.violation(f"python runtime: after tick {ti} the clock reads {ht!r} but the estimate it holds was carried from {st!r} by steps summing to "
+                                  f"{float(total)!r} (valid for t={st + float(total)!r}): the next move is planned from the wrong time",
+                                  {"runtime": "python", "history": h, "observed": obs, "tick": ti}, key="python:clock-and-estimate-disagree")
+                    break
     if cpp_obs is not None:
         oracle("c++", [f[0] for f in flags], cpp_obs)
 
